@@ -26,6 +26,9 @@ EXPLANATION = (
   ' (ORD-children) the children of an ISD element are produced in document order; (ORD-display) display=none prunes the element before its children are visited;'
   ' (REG-repoint) an element whose region is replaced in the document is re-pointed at the replacing region object;'
   ' (CLONE-prune) the per-region clone leaves content out by region association only, never because of a specified style value that animation could change;'
+  ' (LINT-l) no tuple / list / set display of the anchored modules lists the same computed component twice and no dict display repeats a key (a key or fingerprint built that way cannot tell apart what the missing component would have);'
+  ' (STATE-share) no assignment stores a container field of one object (a field the package updates in place) into a field of another object without copying it, so an in-place update of one object never changes another;'
+  " (ITEM-source) an object built once per item of an inner loop is filled only with values that derive from that item or do not vary with the loops, never with a value of the enclosing container standing where the item's own belongs;"
 )
 RULE_TEXT = "per guard x ordering table, per grid, per call site, per truth table"
 UNDECIDED = ["interval arithmetic under arbitrary nesting as values", "text appears once each, in document order, nothing moved between regions (data dependent)",
